@@ -307,15 +307,25 @@ package syncer
 //@   assumes no_filter_hook: s.hooks.FilterReadDBI == nil
 //@   after_call lmdb.(*Txn).OpenDBI#0 ghost loc_got := 0
 //@   after_call lmdb.(*Cursor).Get#0 ghost loc_got := ite(ret2 == nil, 1, 0)
+//@   after_call lmdb.(*Cursor).Get#0 ghost loc_valArr := arrayOf(ret1)
+//@   after_call lmdb.(*Cursor).Get#0 ghost loc_valOff := offsetOf(ret1)
+//@   after_call lmdb.(*Cursor).Get#0 ghost loc_valLen := len(ret1)
+//@   after_call lmdb.(*Cursor).Get#0 ghost loc_ne := hdrNE(ret1)
+//@   after_call lmdb.(*Cursor).Get#0 ghost loc_ts := hdrTS(ret1)
+//@   after_call lmdb.(*Cursor).Get#0 ghost loc_fl := hdrFlags(ret1)
+//@   after_call lmdb.(*Cursor).Get#0 ghost loc_keyArr := arrayOf(ret0)
+//@   after_call lmdb.(*Cursor).Get#0 ghost loc_keyOff := offsetOf(ret0)
+//@   after_call lmdb.(*Cursor).Get#0 ghost loc_keyLen := len(ret0)
 //@   after_call snapshot.(*DBI).Append#0 ghost loc_got := 0
 //@   loop 0 invariant every_entry_appended: ghost_loc_got == 0
 //@   loop 0 invariant names_fit: len(dbiMsg.name) <= 511 && len(dbiMsg.transform) <= 64
 //@   at_call snapshot.(*DBI).SetName#0 assert original_name: arg1 == origDBIName
 //@   at_call snapshot.(*DBI).SetTransform#0 assert transform_iff_dupsort: isDupSort
 //@   at_call snapshot.(*DBI).SetFlags#0 assert original_flags: arg1 == uint64(dbiFlags) && iff(isDupSort, dbiFlags & 4 != 0)
-//@   at_call snapshot.(*DBI).Append#0 assert key_as_stored: sameSlice(arg1.Key, key)
-//@   at_call snapshot.(*DBI).Append#0 assert header_split: !rawValues ==> arg1.TimestampNano == uint64(ts) && arg1.Flags == uint32(uint8(flags) & 1) && sameSlice(arg1.Value, val)
-//@   at_call snapshot.(*DBI).Append#0 assert raw_mode: rawValues ==> arg1.TimestampNano == 0 && arg1.Flags == 0 && sameSlice(arg1.Value, val)
+//@   at_call snapshot.(*DBI).Append#0 assert key_as_stored: arrayOf(arg1.Key) == ghost_loc_keyArr && offsetOf(arg1.Key) == ghost_loc_keyOff && len(arg1.Key) == ghost_loc_keyLen
+//@   at_call snapshot.(*DBI).Append#0 assert header_split: !rawValues ==> arg1.TimestampNano == ghost_loc_ts && arg1.Flags == uint32(ghost_loc_fl & 1)
+//@   at_call snapshot.(*DBI).Append#0 assert value_after_whole_header: !rawValues ==> arrayOf(arg1.Value) == ghost_loc_valArr && offsetOf(arg1.Value) == ghost_loc_valOff + 24 + 8*ghost_loc_ne && len(arg1.Value) == ghost_loc_valLen - 24 - 8*ghost_loc_ne
+//@   at_call snapshot.(*DBI).Append#0 assert raw_mode: rawValues ==> arg1.TimestampNano == 0 && arg1.Flags == 0 && arrayOf(arg1.Value) == ghost_loc_valArr && offsetOf(arg1.Value) == ghost_loc_valOff && len(arg1.Value) == ghost_loc_valLen
 
 //@ func dupSortHackEncode
 //@   trusted
